@@ -74,7 +74,7 @@ class MIADistinguisherMixin(_PartitionnedDistinguisherBaseMixin):
         if self.bin_edges is None:
             logger.info('Start setting y_window and bin_edges.')
             self.y_window = (_np.min(traces), _np.max(traces))
-            self.bin_edges = _np.linspace(*self.y_window, self.bins_number + 1)
+            self.bin_edges = _np.linspace(float(self.y_window[0]), float(self.y_window[1]), self.bins_number + 1)
             logger.info('Bin edges set.')
         self._accumulate_core(traces, data, self.bin_edges, self.accumulators)
 
